@@ -115,3 +115,54 @@ package route
 //@   inline
 //@   requires spec_okBGP(a) && spec_okBGP(b) && spec_okBGP(c)
 //@   ensures a.Select(b) >= 0 && b.Select(c) >= 0 && a.ECMP(c) ==> a.ECMP(b) && b.ECMP(c)
+
+// The same total-preorder lemmas for the other path types and for the
+// type-dispatching (*Path).Select.
+//@ spec
+//@ func spec_okFIB(s *FIBPath) bool { return s != nil && s.NextHop != nil && s.Src != nil }
+//@ func spec_okStatic(s *StaticPath) bool { return s != nil && s.NextHop != nil }
+//@ func spec_okPath(p *Path) bool {
+//@ 	if p == nil {
+//@ 		return true
+//@ 	}
+//@ 	switch p.Type {
+//@ 	case BGPPathType:
+//@ 		return spec_okBGP(p.BGPPath)
+//@ 	case StaticPathType:
+//@ 		return spec_okStatic(p.StaticPath)
+//@ 	case FIBPathType:
+//@ 		return spec_okFIB(p.FIBPath)
+//@ 	}
+//@ 	return true
+//@ }
+//@ end
+
+//@ lemma fibSelectOrder (a *FIBPath, b *FIBPath, c *FIBPath)
+//@   props C02
+//@   inline
+//@   requires spec_okFIB(a) && spec_okFIB(b) && spec_okFIB(c)
+//@   ensures spec_sgn(a.Select(b)) == -spec_sgn(b.Select(a))
+//@   ensures a.Select(b) >= 0 && b.Select(c) >= 0 ==> a.Select(c) >= 0
+//@   ensures a.Select(b) > 0 && b.Select(c) >= 0 ==> a.Select(c) > 0
+//@   ensures a.Select(b) >= 0 && b.Select(c) > 0 ==> a.Select(c) > 0
+//@   ensures a.Select(b) == 0 ==> a.Select(c) == b.Select(c)
+
+//@ lemma staticSelectOrder (a *StaticPath, b *StaticPath, c *StaticPath)
+//@   props C02
+//@   inline
+//@   requires spec_okStatic(a) && spec_okStatic(b) && spec_okStatic(c)
+//@   ensures spec_sgn(a.Select(b)) == -spec_sgn(b.Select(a))
+//@   ensures a.Select(b) >= 0 && b.Select(c) >= 0 ==> a.Select(c) >= 0
+//@   ensures a.Select(b) > 0 && b.Select(c) >= 0 ==> a.Select(c) > 0
+//@   ensures a.Select(b) >= 0 && b.Select(c) > 0 ==> a.Select(c) > 0
+//@   ensures a.Select(b) == 0 ==> a.Select(c) == b.Select(c)
+
+//@ lemma pathSelectOrder (a *Path, b *Path, c *Path)
+//@   props C02
+//@   inline
+//@   requires spec_okPath(a) && spec_okPath(b) && spec_okPath(c)
+//@   ensures spec_sgn(a.Select(b)) == -spec_sgn(b.Select(a))
+//@   ensures a.Select(b) >= 0 && b.Select(c) >= 0 ==> a.Select(c) >= 0
+//@   ensures a.Select(b) > 0 && b.Select(c) >= 0 ==> a.Select(c) > 0
+//@   ensures a.Select(b) >= 0 && b.Select(c) > 0 ==> a.Select(c) > 0
+//@   ensures a.Select(b) == 0 ==> a.Select(c) == b.Select(c)
